@@ -55,6 +55,9 @@ var configs = map[string]config{
 	"g2": {Tables: []tableCfg{{"a", false, "g"}, {"b", true, "g"}}, MaxFile: 64},
 	// a non-prunable compressed table and a prunable raw one (the chain freezer's shape)
 	"mixed": {Tables: []tableCfg{{"a", false, ""}, {"b", true, "g"}}, MaxFile: 64},
+	// two tables that are both not prunable: whichever table a call reaches first is not prunable (used by the
+	// directed history of C24-F2, which must not depend on Go's map iteration order)
+	"np2": {Tables: []tableCfg{{"a", false, ""}, {"b", true, ""}}, MaxFile: 64},
 	// three tables, two tail groups and a non-prunable table
 	"g3": {Tables: []tableCfg{{"a", false, ""}, {"b", true, "g"}, {"c", false, "h"}}, MaxFile: 64},
 }
